@@ -108,7 +108,8 @@ func runCase(f *Family, hdr Header, c any, src string) (res CaseResult) {
 	go func() {
 		defer func() {
 			if r := recover(); r != nil {
-				done <- CaseResult{Evals: 1, Failures: []Failure{{Kind: "panic", Source: src, Abstract: c,
+				done <- CaseResult{Evals: 1, Failures: []Failure{{Kind: "panic", Source: src, Abstract: c, Concrete: c,
+					Expected: "the call returns, with a value or an error", Got: fmt.Sprintf("panic: %v", r),
 					Detail: fmt.Sprintf("%v\n%s", r, debug.Stack())}}}
 			}
 		}()
@@ -118,7 +119,8 @@ func runCase(f *Family, hdr Header, c any, src string) (res CaseResult) {
 	case r := <-done:
 		return r
 	case <-time.After(caseTimeout):
-		return CaseResult{Evals: 1, Failures: []Failure{{Kind: "hang", Source: src, Abstract: c,
+		return CaseResult{Evals: 1, Failures: []Failure{{Kind: "hang", Source: src, Abstract: c, Concrete: c,
+			Expected: "the call returns, with a value or an error", Got: "no result within the deadline",
 			Detail: fmt.Sprintf("no result after %s", caseTimeout)}}}
 	}
 }
